@@ -22,6 +22,7 @@ def run(ctx):
              "steps_truncated_tl2_json": 0, "steps_reset": 0, "steps_after_failed_decode": 0, "kernel_rejected": 0, "model_compared_steps": 0,
              "go_fillrandom_values": 0, "budget_skips": 0}
     mism, bad, samples, unit_errors = [], [], [], []
+    distinct = set()     # distinct histories in which a successful decode is followed by at least one more step
     lock = threading.Lock()
     rngs = {u.name: random.Random(ctx.rng.getrandbits(64)) for u in st.units}
 
@@ -117,6 +118,7 @@ def run(ctx):
                 unit_errors.append((u.name, f"driver failed: model rc={rc} lines {len(mo)}/{len(ml)} go lines {len(go)}/{len(gl)} {err[-300:]}"))
             return
         ubad, umism = [], []
+        udist = set()
         for l, g, m, ks in zip(gl, go, mo, kinds):
             name = l.split(" ")[1]
             if not g.startswith("ok ") or not m.startswith("ok "):
@@ -125,6 +127,9 @@ def run(ctx):
             ge = [e.split(",") for e in g[3:].split(" ; ")]
             me = [e.split(",") for e in m[3:].split(" ; ")]
             s_["histories"] += 1
+            oks = [i for i, e in enumerate(ge) if e[0].startswith("ok")]
+            if oks and oks[0] < len(ge) - 1:
+                udist.add((u.name, l))
             prev_failed = False
             for i, (e, k) in enumerate(zip(ge, ks)):
                 s_["steps"] += 1
@@ -147,6 +152,7 @@ def run(ctx):
         with lock:
             for k in s_:
                 stats[k] = stats.get(k, 0) + s_[k]
+            distinct.update(udist)
             bad.extend(ubad)
             mism.extend(umism)
             if len(samples) < 12 and gl:
@@ -158,7 +164,7 @@ def run(ctx):
 
     family_report(
         ctx, st, PROPS, ["Prim"], "corr:C09:reuse", mism, bad, unit_errors, stats, samples,
-        rule="per schema (repository + random schemas), per top-level object: histories of 2..6 steps applied to ONE generated object and, step by step, to fresh objects: "
+        rule="non-trivial = distinct histories in which a successful decode is followed by at least one more step; per schema (repository + random schemas), per top-level object: histories of 2..6 steps applied to ONE generated object and, step by step, to fresh objects: "
              "valid TL1 (boxed/bare; from the model writer on type-directed values and from Go FillRandom), mutated TL1, the same values converted by Go to TL2 / JSON, truncated TL2/JSON, Reset; "
              "oracle: verdict and all three re-encodings (TL1, JSON, TL2) of the reused object equal those of the fresh object after every step, Reset object writes like a new object; "
              "correspondence: verdict, consumed length and TL1 re-encoding of every TL1 / Reset step equal the extracted model (dinto / oreset / oenc) run over the same history",
@@ -168,4 +174,4 @@ def run(ctx):
         assumptions=["64-bit platform", "the templates are modelled, not verified: agreement shown on the listed schemas x histories",
                      "TL2 and JSON readers are covered by the Go-side oracle only (the Coq model is TL1-level): partial",
                      "bytes-version objects (CreateObjectBytes) are not exercised"],
-        extra={"evaluations": stats["steps"], "distinct_nontrivial": stats["histories"]})
+        extra={"evaluations": stats["steps"], "distinct_nontrivial": len(distinct)})
